@@ -523,6 +523,13 @@ def answer (cx : Ctx) (toks : List String) : Ctx × List String :=
         else failure
       pure out).run' rest
     (cx, r.getD ["bad-op"])
+  | ["mpsrange", sense, rhs, r] =>
+    -- C09: what the MPS reader stores for a row of that sense / rhs with a RANGES value r ("-" = none)
+    match parseRat? rhs, (if r == "-" then some none else (parseRat? r).map some) with
+    | some q, some ro =>
+      let (s', rhs', rg') := Qsx.MpsRanges.readRow sense.front q ro
+      (cx, [s!"row {s'} {fmtRat cx rhs'} {fmtRat cx rg'}"])
+    | _, _ => (cx, ["bad-op"])
   | "tointernal" :: rest =>
     let r : Option (List String) := (do
       let L ← pLP cx
